@@ -5,19 +5,23 @@ from props.C08 import seq
 def obligations(tier):
     q = tier == 'quick'
     obs = []
-    cfgs = [(0, 1, 1, 4), (1, 2, 1, 4)] if q else [(0, 1, 1, 8), (0, 2, 1, 4), (1, 1, 1, 8), (1, 2, 2, 4)]
+    reqs = ['0', '1', '2', '3', '4', '5', '7', '~0UL', '(1UL<<63)+1'] if q else ['0', '1', '2', '3', '4', '5', '6', '7', '8', '9', '~0UL', '(1UL<<63)', '(1UL<<63)+1', '(1UL<<32)+3']
+    cfgs = [(0, 1, 1, 4)] if q else [(0, 1, 1, 4), (0, 2, 1, 8), (1, 2, 1, 4)]
     for (mm, i, mn, mx) in cfgs:
-        o = seq('resize_any_%s_i%d_m%d_M%d' % (['order', 'chunk'][mm], i, mn, mx), 2, mm, i, mn, mx, 0, 0, unwind=6 if mx <= 4 else 8, extra_cf=[] if not q else ['-DONE_RESIZE'],
-                desc='cds_lfht_resize(ht, n) for a fully symbolic 64-bit n on a table holding 2 nodes with symbolic hashes, then a second resize to another symbolic size: '
-                     'returns (unwinding assertions bound the resize loop), contents preserved (lookup / traversal / count), 1 <= size <= max, pool allocator checks '
-                     'single free and no use of freed bucket tables',
-                wit=['non power of two request', 'ULONG_MAX request', 'zero request'])
-        obs.append(o)
+        for n in reqs:
+            tag = n.replace('~0UL', 'max').replace('(1UL<<63)+1', 'p63p1').replace('(1UL<<63)', 'p63').replace('(1UL<<32)+3', 'p32p3')
+            o = seq('resize_to_%s_%s_i%d_m%d_M%d' % (tag, ['order', 'chunk'][mm], i, mn, mx), 2, mm, i, mn, mx, 0, 0, unwind=6,
+                    extra_cf=['-DREQ_N=%s' % n, '-DONE_RESIZE'],
+                    desc='cds_lfht_resize(ht, %s) on a table holding 2 nodes with symbolic keys and 64-bit hashes: returns (unwinding assertions bound the resize '
+                         'loop at 2 iterations), contents preserved (lookup / duplicates / traversal / count), 1 <= size <= max, single free, no use of freed buckets' % n)
+            o['unwind_fn'] = dict(o['unwind_fn'], **{'^F0__do_cds_lfht_resize$': 3})
+            o['bounds']['requested_size'] = n
+            obs.append(o)
     return obs
 
 
 EXPLANATION = 'C09: resize terminates, preserves contents, respects bounds'
-OUTSIDE = 'tables above 8 buckets, more than 2 nodes during the resize, concurrent readers/updaters during a resize and lazy (workqueue) resizes are not covered by these sequential obligations'
+OUTSIDE = 'requested sizes other than the listed ones (chosen to cover 0, powers of two, non powers of two, above max, ULONG_MAX, >2^63); tables above 8 buckets, more than 2 nodes during the resize, concurrent readers/updaters during a resize and lazy (workqueue) resizes are not covered by these sequential obligations'
 ASSUMPTIONS = ['custom cds_lfht_alloc backed by typed static pools with poisoning on free', 'ghost flavor: synchronize_rcu counts grace periods and asserts it is not called inside a read-side section']
 LEVEL_TEXT = ('Bounded model checking with unwinding assertions of the real cds_lfht_resize/_do_cds_lfht_resize/init_table/fini_table for every 64-bit requested size '
               '(two consecutive requests) on small tables, per allocator.')
